@@ -34,6 +34,12 @@ def refinement(*conditions: ConditionType) -> SymbolicExpression[T]:
     new_conditions_root = ExceptIf(SymbolicExpression._current_parent_(), new_branch)
     new_branch._node_.weight = RDREdge.Refinement
     new_conditions_root._parent_ = prev_parent
+    if isinstance(prev_parent, BinaryOperator):
+        # the refined node is an operand of a branch operator, which has to evaluate the refinement in its place
+        if prev_parent.left is current_node:
+            prev_parent.left = new_conditions_root
+        else:
+            prev_parent.right = new_conditions_root
     return new_conditions_root.right
 
 
